@@ -212,6 +212,47 @@ def gen_prefix(seed, i, cache):
     return core.Case("backend", sc.lines, {"kind": "prefix", "cache": cache, "quiescent": True}, model_suite="watch")
 
 
+def gen_shared_batch(seed, i, cache):
+    """several watchers of DIFFERENT directories registered, then a burst of writes across those directories that the
+    sequencer hands to the hub as ONE batch (the write in front of them is held inside the sequencer while their slots fill):
+    the hub gives every subscriber the same batch, each watcher filters it for itself - what one watcher does with the batch
+    must not change what the others see"""
+    r = rng_for(seed, "c05/shared/%d/%d" % (i, cache))
+    keys = r.sample(KEY_POOL, r.randint(4, 8))
+    sc = Script(r, cache, keys)
+    sc.writes(r.randint(1, 4), fault=0.0)
+    ws = []
+    dirs = [b"/r/a/", b"/r/ab", b"/r/b/", b"/r/events/"]
+    pf = r.sample(dirs, r.randint(2, 4)) + ([b"/r/"] if r.random() < 0.5 else [])
+    r.shuffle(pf)
+    for j, pfx in enumerate(pf):
+        s0 = sc.pick_start(r.choice(["zero", "newest", "inside"]))
+        sc.lines.append("startw c%d w%d %s %d" % (j + 1, j + 1, hx(pfx), s0))
+        sc.lines.append("join c%d" % (j + 1))
+        ws.append("w%d" % (j + 1))
+    for _ in range(r.randint(1, 3)):
+        sg = r.choice(["seq.before_cache", "seq.before_broadcast"])
+        sc.lines.append("arm " + sg)
+        sc.seq_parked = True
+        sc.write(force_ok=True)
+        sc.lines.append("await " + sg)
+        for _ in range(r.randint(2, 7)):
+            if r.random() < 0.75:
+                sc.write(force_ok=True)
+            else:
+                sc.write(fault=0.0)
+        sc.lines.append("disarm " + sg)
+        sc.seq_parked = False
+        sc.lines.append("sync")
+        if r.random() < 0.4:
+            sc.lines.append("drain " + r.choice(ws))
+    sc.writes(r.randint(0, 3), fault=0.0)
+    sc.lines.append("sync")
+    for w in ws:
+        sc.lines.append("drain " + w)
+    return core.Case("backend", sc.lines, {"kind": "prefix", "cache": cache, "quiescent": True}, model_suite="watch")
+
+
 def gen_slow(variant):
     """the never-draining watcher w1 (and, variant "pos", a draining watcher w2 on the same hub)"""
     n = WATCH_BUFFER + RESULT_CHAN + 2          # one more than fits: 10000 + 100 + 1 in hand
@@ -539,6 +580,8 @@ def build_cases(tier, seed):
                     cases.append(gen_race(seed, i, ["before", "sub_read", "read_decide"][i % 3], st, cache, seqgate=sg))
     for j in range(12 if tier == "quick" else 800):
         cases.append(gen_prefix(seed, j, CACHES[j % len(CACHES)]))
+    for j in range(10 if tier == "quick" else 600):
+        cases.append(gen_shared_batch(seed, j, [7, 1024, 1024, 3][j % 4]))
     for j in range(3 if tier == "quick" else 60):
         cases.append(etcd_created_case(seed, j, ["memkv", "badger", "tikv"][j % 3]))
     for j in range(3 if tier == "quick" else 60):
